@@ -22,6 +22,11 @@ def files():
     # a plain-protobuf request from a dependency package with a response of the API's own package
     G.add_method(svc, "PolicyNote", ".google.iam.v1.GetIamPolicyRequest", ".acme.lab.v1.Resp", http=("post", "/v1/{resource=p/*}:note"), body="*")
     fd.dependency.append("google/iam/v1/iam_policy.proto")
+    # a long-running rpc one of whose flattened parameters is called like the api-core module that wraps its reply (`operation`)
+    G.add_message(fd, "OpReq", [G.F("name", 1, G.T.TYPE_STRING), G.F("operation", 2, G.T.TYPE_STRING)])
+    G.add_message(fd, "OpMeta", [G.F("pct", 1, G.T.TYPE_INT32)])
+    G.add_method(svc, "RunOperation", ".acme.lab.v1.OpReq", ".google.longrunning.Operation", http=("post", "/v1/{name=p/*}:run"), body="*",
+                 signatures=["name,operation"], lro=("Resp", "OpMeta"))
     return [fd]
 
 
@@ -30,6 +35,7 @@ def scenarios():
     from google.auth.credentials import AnonymousCredentials
     from google.iam.v1 import iam_policy_pb2, policy_pb2
     from google.protobuf import empty_pb2
+    G.stub_pandoc_if_absent()
     failures, cases = [], 0
     # Drop (void) and Fetch carry a default retry policy: the asyncio stub is then wrapped in AsyncRetry's coroutine function
     retry_cfg = {"methodConfig": [{"name": [{"service": "acme.lab.v1.Lab", "method": "Drop"}, {"service": "acme.lab.v1.Lab", "method": "Fetch"}], "timeout": "30s",
@@ -102,6 +108,25 @@ def scenarios():
                     exp = lab_v1.Resp(note="re:" + rpc) if own_reply else policy_pb2.Policy(version=3)
                     if out != exp:
                         failures.append({"case": f"{which} {pyname}({form})", "returned": repr(out)[:100], "server_sent": repr(exp)[:100]})
+        # long-running rpc: the caller gets a future over the operation the server sent (sync and asyncio; request object and flattened arguments)
+        from google.longrunning import operations_pb2
+        for which, cl in (("sync", client), ("async", aclient)):
+            for form, kwargs in (("message", {"request": lab_v1.OpReq(name="p/1", operation="compact")}), ("flattened", {"name": "p/1", "operation": "compact"})):
+                cases += 1
+                log.clear()
+                replies["RunOperation"] = operations_pb2.Operation(name="operations/77", done=False)
+                try:
+                    out = cl.run_operation(**kwargs)
+                    if which == "async":
+                        out = asyncio.run(_await(out))
+                except Exception as e:      # noqa
+                    failures.append({"case": f"{which} run_operation({form})", "error": repr(e)[:200]})
+                    continue
+                if len(log) != 1 or log[0][1] != "/acme.lab.v1.Lab/RunOperation" or lab_v1.OpReq.deserialize(log[0][2]).operation != "compact":
+                    failures.append({"case": f"{which} run_operation({form})", "channel_log": repr(log)[:200]})
+                opname = getattr(getattr(out, "operation", None), "name", None)
+                if opname != "operations/77":
+                    failures.append({"case": f"{which} run_operation({form})", "returned": repr(out)[:120], "server_sent": "Operation operations/77"})
         # streaming arities (sync)
         for pyname, rpc, kind in (("watch", "Watch", "unary_stream"), ("upload", "Upload", "stream_unary"), ("chat", "Chat", "stream_stream")):
             cases += 1
